@@ -260,13 +260,31 @@ theorem evm_refund_credits_erc20 (ops : List Op) (e : SentRec) (mode : Mode) (hm
   have hTo : genCfg.refundToSender = true := by decide
   exact settle_refund_credits genCfg genCfg_sound hE hT hTo (run init ops) e mode hm h he hB hc hmeta
 
+/-- Round trip: in any reachable state, a transfer of the aliased token started from the EVM that is then rejected or
+times out leaves EVERY ERC-20 balance of EVERYBODY, every bank balance of the sender (other than the module accounts)
+and the relation store exactly as they were before the transfer started: the refund gives back exactly what the send
+took, in the form it took it, and nothing else.  (`hmeta` as in `evm_refund_credits_erc20`.) -/
+theorem evm_send_refund_roundtrip (ops : List Op) (l : Ch) (a : Addr) (amt : Nat) (mode : Mode) (hm : mode ≠ .ackOk)
+    (hmeta : genCfg.aliasFirst = true ∨ l ∉ (run init ops).ctl.vmeta)
+    (hok : (step (run init ops) (.send l a .A amt)).2 ≠ .fail) :
+    let s := run init ops
+    let r := step (step s (.send l a .A amt)).1 (.settle l (nextSeq s.ctl l) mode)
+    r.2.isDone ∧ (∀ k, sget r.1.bal.erc k = sget s.bal.erc k) ∧
+    (a ≠ transferMod → a ≠ erc20Mod → ∀ d, sget r.1.bal.bank (a, d) = sget s.bal.bank (a, d)) ∧
+    r.1.ctl.rel = s.ctl.rel := by
+  have h := run_inv genCfg genCfg_sound ops init inv_init
+  have hE : genCfg.ackErrRefunds = true := by decide
+  have hT : genCfg.timeoutRefunds = true := by decide
+  have hTo : genCfg.refundToSender = true := by decide
+  exact send_refund_roundtrip genCfg genCfg_sound hE hT hTo (run init ops) h l a amt mode hm hmeta hok
+
 /-- A transfer that was NOT started from the EVM (plain `MsgTransfer` of FX or of a native coin, with or without a
-token pair) is refunded in the form it left in: in any reachable state a processed error acknowledgement / timeout puts
+token pair), and a transfer of FX — the EVM's own coin — started from the EVM, is refunded in the form it left in: in any reachable state a processed error acknowledgement / timeout puts
 exactly the amount back on the sender's bank balance (sender other than the escrow account), changes no other
 denomination of anybody, changes no ERC-20 balance, and logs a refund that is not in ERC-20 form — whatever EVM-started
 transfers are in flight on whatever channels (their records are never mistaken for this transfer's). -/
 theorem cosmos_refund_in_bank_form (ops : List Op) (l : Ch) (seq : Seq) (p : Pkt) (mode : Mode) (hm : mode ≠ .ackOk)
-    (hlk : lookup (l, seq) (run init ops).ctl.commits = some p) (hev : p.evm = false) :
+    (hlk : lookup (l, seq) (run init ops).ctl.commits = some p) (hev : p.evm = false ∨ p.tok = .F) :
     let s := run init ops
     let r := step s (.settle l seq mode)
     r.2.isDone →
@@ -526,7 +544,7 @@ Theorems of this file:
   intermediate_sender_shape, intermediate_sender_preimage_injective, intermediate_sender_not_local,
   memo_channel_end, memo_call_sender_flow, memo_call_sender_not_local, memo_sender_distinct_per_local_channel,
   memo_sender_collision_across_counterparties, memo_sender_distinct_per_local_channel_partial,
-  refund_exactly_once, evm_refund_credits_erc20, cosmos_refund_in_bank_form, alias_metadata_refund_stuck, alias_metadata_refund_stuck_witness,
+  refund_exactly_once, evm_refund_credits_erc20, evm_send_refund_roundtrip, cosmos_refund_in_bank_form, alias_metadata_refund_stuck, alias_metadata_refund_stuck_witness,
   relation_removed_on_failure_partial, relation_removed_always, settle_touches_only_its_record,
   relation_removed_always_reachable, relation_records_are_inflight, evm_transfer_settled_one_way,
   genCfg_is_ref, success_ack_keeps_relation_witness, success_ack_removes_relation_fixed,
